@@ -18,6 +18,7 @@ import numpy as np
 import scipy.sparse as sp
 
 from vlib import compose as C
+from vlib import refmath as R
 from vlib import probe as PB
 from vlib.common import rng_for, want, small
 from vlib.runner import digest, VERIF_DIR, PY
@@ -225,6 +226,24 @@ def solve_shard(spec, emit):
                                                         argument=bad[0], detail="%s changed during solve" % bad))
             else:
                 rec["status"] = "held"
+                # the same solver object on other data of the same shape (columns on very different scales: every
+                # constant derived from the data changes): the result is that of a fresh solver object
+                csB = dict(cs, coords=["solveB", rep], xkind="scaled", warm="cold")
+                caseB = K.Case(csB)
+                outs = []
+                for sv in (solver, caseB.make_solver()):
+                    dfB, penB = caseB.compiled()
+                    with warnings.catch_warnings():
+                        warnings.simplefilter("ignore")
+                        outs.append(np.asarray(sv.solve(caseB.X, caseB.y, None if s == "GramCD" else dfB, penB)[0], float))
+                rec["count"]["api_calls"] += 2
+                nondet = (s == "GroupBCD" and csB["storage"] != "dense")          # randomly started power method
+                if not R.close(outs[0], outs[1], rel=1e-3 if nondet else 1e-9):
+                    rec.update(status="violated",
+                               viol=dict(mechanism="solver-object-carries-state-between-solves", solver=s, datafit=d, penalty=p_,
+                                         maxdiff=R.maxdiff(outs[0], outs[1]),
+                                         detail="second solve with a used solver object differs from a fresh one by %.3g" %
+                                                R.maxdiff(outs[0], outs[1])))
         except Exception as e:
             rec.update(status="refused", nontrivial=False, obs=dict(exc=repr(e)[:200]))
         emit(rec)
